@@ -256,6 +256,10 @@ pub(crate) async fn serve(data_dir: std::path::PathBuf) {
 
 #[cfg(not(test))]
 async fn ping_openapi(client: &Client, endpoint: &str) -> bool {
+    #[cfg(rip_verif)]
+    if let Some(answer) = rip_kernel::verif::ping(endpoint) {
+        return answer;
+    }
     let url = format!("{endpoint}/openapi.json");
     match client.get(url).send().await {
         Ok(resp) => resp.status().is_success(),
@@ -291,6 +295,8 @@ async fn acquire_authority_lock_with_recovery(
     data_dir: &std::path::Path,
     workspace_root: &std::path::Path,
 ) -> Result<AuthorityLockGuard, String> {
+    #[cfg(rip_verif)]
+    use rip_kernel::verif::seam_std as std;
     let workspace_root_str = workspace_root.to_string_lossy().to_string();
 
     let mut lock_invalid_since: Option<std::time::Instant> = None;
@@ -370,10 +376,26 @@ async fn acquire_authority_lock_with_recovery(
                     }
                 }
 
+                #[cfg(rip_verif)]
+                if rip_kernel::verif::retry_sleep("auth.retry_sleep") {
+                    continue;
+                }
                 tokio::time::sleep(std::time::Duration::from_millis(20)).await;
             }
         }
     }
+}
+
+/// The server's recovery loop as it runs in `serve`, for the schedule exploration of the lock
+/// protocol (liveness, reachability, the clock and the retry sleep are seams).
+#[cfg(all(rip_verif, not(test)))]
+pub async fn verif_acquire_authority_lock_with_recovery(
+    data_dir: &std::path::Path,
+    workspace_root: &std::path::Path,
+) -> Result<AuthorityLockGuard, String> {
+    static CLIENT: std::sync::OnceLock<Client> = std::sync::OnceLock::new();
+    let client = CLIENT.get_or_init(Client::new);
+    acquire_authority_lock_with_recovery(client, data_dir, workspace_root).await
 }
 
 #[cfg(not(test))]
